@@ -1048,15 +1048,18 @@ def run(chk):
         # the guard of the CTE elimination theorem, decided (Model/CacheSound.v) on the real graphs where a step was reused
         if SOUND_TERMS:
             nf, nerr, nck = lib.run_case_files("C04s", PREAMBLE, [t for t, _ in SOUND_TERMS], "check_cases", per_file=150)
-            no = [SOUND_TERMS[i][1] for i in nf if i < len(SOUND_TERMS)]
+            nf = [i for i in nf if i < len(SOUND_TERMS)]
+            # the graphs that do not pass: is every offending pair a pair of sub-queries that both contain a join?
+            nfj, nerrj, _ = lib.run_case_files("C04s", PREAMBLE, [SOUND_TERMS[i][0].replace("(CSound ", "(CSoundJ ", 1) for i in nf], "check_cases", per_file=150) if nf else ([], [], 0)
             chk.cov["cache_sound_decided"] = {"graphs_with_reuse": len(SOUND_TERMS), "checked_in_coq": nck, "established_for_every_engine": nck - len(nf),
-                                              "not_established": len(nf), "not_established_with_a_join_in_the_graph": sum(1 for x in no if x["has_join"]),
-                                              "errors": nerr[:1]}
-            for x in no:
-                if not x["has_join"]:
-                    chk.corr_break("two sub-queries of a real NearSQL graph have the same cache key and are not the same query up to step names "
-                                   "(no join involved): the guard of C04_cte_elim_preserves is not established for a graph the generator produced", x)
-                    break
+                                              "not_established_only_because_of_joins": len(nf) - len(nfj), "not_established_otherwise": len(nfj),
+                                              "errors": (nerr + nerrj)[:1]}
+            if nerr or nerrj:
+                chk.corr_break("cache-soundness case files failed to compile", (nerr + nerrj)[0])
+            for j in nfj[:1]:
+                chk.corr_break("two sub-queries of a real NearSQL graph have the same cache key and are not the same query up to step names "
+                               "(and not both contain a join): the guard of C04_cte_elim_preserves is not established for a graph the generator produced",
+                               dict(SOUND_TERMS[nf[j]][1], term=SOUND_TERMS[nf[j]][0][:4000]))
         chk.cov["timing_s"] = {"generation_oracle_serialisation": round(t_oracle, 1), "coq_case_files": round(time.time() - t_start - t_oracle, 1)}
         if (failing or errors or not getattr(chk, "proof_ok", True)) and not any(v[2] for v in chk.violations):
             # something no longer checks and the sampled pipelines all behave: look further for an input on which the
